@@ -546,10 +546,22 @@ Fixpoint trim_rev (r : list Z) : list Z :=
 Definition trim_end_len (bs : list Z) : Z := len (trim_rev (rev bs)).
 
 (* n := 2; for n < len(data) { if tagend(data[n]) { break }; n++ } : the length n-2 of the tag name, on data[2:] *)
-Fixpoint name_run (bs : list Z) : Z :=
+Fixpoint prefixb (p s : list Z) : bool :=
+  match p with
+  | [] => true
+  | x :: p' => match s with
+               | [] => false
+               | y :: s' => (x =? y) && prefixb p' s'
+               end
+  end.
+
+(* ... and at the start of a template delimiter, if delimiters are configured (tb = l.tmplBegin): a template is not part of the name *)
+Fixpoint name_run (tb : list Z) (bs : list Z) : Z :=
   match bs with
   | [] => 0
-  | c :: t => if is_tagend c then 0 else 1 + name_run t
+  | c :: t => if is_tagend c then 0
+              else if match tb with [] => false | _ => prefixb tb bs end then 0
+              else 1 + name_run tb t
   end.
 
 (* returns (token view, text view, cursor with the tag name lower-cased: parse.ToLower(data[2:n])) *)
@@ -561,7 +573,7 @@ Definition shift_endtag (c : cfg) (z : lx) (has : bool) : res (sl * sl * lx * bo
   s <-- shiftv (mv (fst r) (snd r)) ;;
   let data := fst s in
   if 2 <=? sn data then                                  (* data[2:n] with len(data) < 2 would panic *)
-    let n := name_run (skipz 2 (view_bytes (lbuf z) data)) in
+    let n := name_run (tb c) (skipz 2 (view_bytes (lbuf z) data)) in
     Ok (data, mkSl (so t) e, lx_lower (snd s) (mkSl (so data + 2) n), snd rh)
   else Panic.
 
